@@ -198,6 +198,11 @@ def term(n: ast.AST) -> str:
 def cstr(n: ast.AST) -> str:
     if isinstance(n, ast.Call):
         f = cstr(n.func)
+        if f == 'dict' and len(n.args) == 1 and not n.keywords and isinstance(n.args[0], (ast.GeneratorExp, ast.ListComp)) \
+                and isinstance(n.args[0].elt, ast.Tuple) and len(n.args[0].elt.elts) == 2:
+            # dict((k, v) for ...) is the dict comprehension {k: v for ...}
+            g = n.args[0]
+            return cstr(ast.DictComp(key=g.elt.elts[0], value=g.elt.elts[1], generators=g.generators))
         args = [term(a) for a in n.args]
         if f in COMMUTATIVE_CALLS:
             args = sorted(args)
